@@ -65,11 +65,24 @@ func (w *Writer[K, E]) Delete(ctx context.Context, keys ...K) error {
 	return nil
 }
 
+// lockDirect orders a write made directly on the DB (outside a transaction) with the
+// commits of transactions and with other direct writes: the KV write and the index
+// update are two steps, and without the lock two writers of one entry can perform
+// them in opposite orders, leaving the indexes with a value the table no longer holds.
+func (w *Writer[K, E]) lockDirect() func() {
+	if db, ok := w.tx.(*DB); ok && db.commitMu != nil && len(w.indexes) > 0 {
+		db.commitMu.Lock()
+		return db.commitMu.Unlock
+	}
+	return func() {}
+}
+
 func (w *Writer[K, E]) set(ctx context.Context, entry E) error {
 	data, err := w.tx.Encode(ctx, entry)
 	if err != nil {
 		return err
 	}
+	defer w.lockDirect()()
 	v := w.keyCodec.encode(entry.GorpKey())
 	if err := w.tx.Set(ctx, v, data, entry.SetOptions()...); err != nil {
 		return err
@@ -81,6 +94,7 @@ func (w *Writer[K, E]) set(ctx context.Context, entry E) error {
 }
 
 func (w *Writer[K, E]) delete(ctx context.Context, key K) error {
+	defer w.lockDirect()()
 	if err := w.tx.Delete(ctx, w.keyCodec.encode(key)); err != nil {
 		return err
 	}
